@@ -37,7 +37,7 @@ Input space and bound
 Tolerances
   mean, var, alpha, beta vs the exact values: relative 1e-9 (statement: "equal the exact ... mean and
   variance"; tsdate evaluates the same quantity by a log-space recursion in doubles, so the two are
-  algebraically identical and differ by accumulated rounding only; observed < 1e-11 at n = 600).
+  algebraically identical and differ by accumulated rounding only; observed 6e-14 for n <= 300 and 2e-12 on the ladder up to n = 5000).
   lognormal alpha = log(mean) - beta/2 is a difference of two O(1..10) logs, so an absolute term of
   1e-12 is added for that one column (cancellation, not a loosening of the relative bound elsewhere).
   Internal consistency of a row (alpha/beta vs its own mean/var): relative 1e-11 (exp/log round trip of O(10) exponents).
@@ -177,8 +177,13 @@ def check_n(rep, cct, n, ks, stats):
 
     ia, ib = PriorParams.field_index("alpha"), PriorParams.field_index("beta")
     im, iv = PriorParams.field_index("mean"), PriorParams.field_index("var")
-    for c in cct.values():
-        c.add(n, approximate=False)
+    try:
+        for c in cct.values():
+            c.add(n, approximate=False)
+    except Exception as e:  # noqa: BLE001 -- tsdate failing to produce the table is a contract failure
+        rep.case("mean-equals-exact-kingman", False, key=f"n{n}", input={"n": n},
+                 observed=f"ConditionalCoalescentTimes.add raised {type(e).__name__}: {e}", expected="a table")
+        return
     rows_g = cct["gamma"][n]
     rows_l = cct["lognorm"][n]
     ex = KingmanExact(n)
